@@ -714,6 +714,23 @@ func (c *c08Case) commit(in *c08Inst, del bool, observe bool) {
 		}
 		o.Stat("oracle:readback-" + via)
 	}
+	// now and then the snapshot tree is flattened into its disk layer (what the pruner and the
+	// 128-block cap do): later layers sit on a disk layer with a warm clean cache, and a slot deleted
+	// afterwards must not be served from that cache (seeded change C06_d)
+	if c.snaps != nil && len(c.insts) == 1 && hadSnap && c.r.Chance(30) {
+		// (only while a single instance exists: flattening drops the layers other instances stand on)
+		if err := c.snaps.Cap(root, 0); err != nil {
+			o.Stat("snapshot.cap-error")
+		} else {
+			o.Stat("snapshot.flattened-to-disk")
+			if re, err := New(root, c.db, c.snaps); err == nil && re.snap != nil {
+				got := c08AccountsOnly(o, re) // also warms the disk layer's clean cache
+				if got != strings.ReplaceAll(want, "s1b", "s0b") {
+					c.viol("c08-readback", fmt.Sprintf("via snapshot disk layer after flattening: committed %s reopened %s", want, got))
+				}
+			}
+		}
+	}
 	// continue on a reopened state (always when a snapshot tree is in use and the layer exists)
 	if c.r.Chance(65) {
 		sn := c.snaps
